@@ -211,6 +211,18 @@ CLAIMED["C07"] = dict(
          "shaped siblings open). Nest-deeper edits are not generated. Two output channels throughout.",
     technique="TLA+ model of edit histories over a definitional evaluator, checked with TLC; histories replayed on VM and WASM",
 )
+CLAIMED["C15"] = dict(
+    category="model_checking",
+    text="Session.tla models a compilation session (process-wide interner, anonymous-function counter, hash seed; several processes) "
+         "and states the property - what a compilation yields is a function of the source alone; TLC checks it over all histories of "
+         "the bound and must refute it for each modelled leak (interned id, counter, hash seed). The harness compiles and runs every "
+         "source of a corpus twice per process in a seeded order in several fresh processes, recording bytecode listing, WASM bytes, "
+         "state layout, first samples and diagnostics; DeterminismTrace.tla validates that all observations of one source are equal.",
+    design_ref="DESIGN.md §6 C15",
+    note="The MIR listing prints interned ids and is not part of the statement. Sources that kill the process are C03's matter and "
+         "are left out.",
+    technique="TLA+ session model checked with TLC (and refuted per modelled leak); recorded compile events of many processes and histories validated against a trace specification",
+)
 CLAIMED["C16"] = dict(
     category="model_checking",
     text="Lang.tla defines consistent renaming of user-chosen identifiers (RenameProg); MCRename.tla checks with TLC that the "
